@@ -13,7 +13,7 @@ From Coq Require Import String.
 From Verif Require Import Params Base Value Formatter FormatSpec FormatProofs FormatText FormatBound.
 From Verif Require Lexer Literals Parser LexBridge LexBridge2 Complete LexRender ParseRun CollateCompare.
 From Verif Require RoundTripLit RoundTripLeaf RoundTripScan RoundTripDeriv RoundTripProofs RoundTripSets RoundTripTotal.
-From Verif Require ErrorTokens ScanUpto FormatDeep RoundTripScanE.
+From Verif Require ErrorTokens ScanUpto FormatDeep RoundTripScanE ParserPrefix.
 From Verif Require Import RoundTrip.
 Open Scope Z_scope.
 
@@ -432,6 +432,19 @@ Theorem C10_accepted_source_has_no_error_token :
     Forall (fun t => Lexer.ttype_of t <> Lexer.TError) (Lexer.lex src).
 Proof. exact ErrorTokens.accepted_no_error. Qed.
 
+(* towards the pinned diagnostic in general: the parser on a proper prefix of a derivation that ends in "["
+   followed by an Error token — the shape of an elided output — stops with the diagnostic for THAT token
+   (ParserPrefix.v: estopc = the inductive viable prefixes, the items in front whole derivations; the base
+   case open_error: read from the queue get_next stops on it, handed out from the push-back stack every
+   alternative of parseItems fails on it and parseSequence blames it).  What is still missing to retire
+   the _partial theorem below: the construction of estopc for the FORMATTER's tokens before the first
+   elision (the items in front are derivations by C10_round_trip_derivation). *)
+Theorem C10_prefix_open_error :
+  forall (fparse : list Z -> option Z) (crank : val -> val -> option comparison) (e : Lexer.token) (ts r : list Lexer.token),
+    Lexer.ttype_of e = Lexer.TError -> ParserPrefix.estopc fparse crank e ts ->
+    Parser.parse_tokens fparse crank (ts ++ r) = Parser.PSyntax e.
+Proof. exact ParserPrefix.prefix_open_error. Qed.
+
 (* the diagnostic pinned to the first dot: the chains of single-item sequences deeper than the default
    limit (every unfolding of a self-containing list / array / set / stack / queue) *)
 Theorem C10_elided_not_parsed_partial :
@@ -597,6 +610,7 @@ Print Assumptions C10_round_trip_scannable_upto_elision.
 Print Assumptions C10_elided_not_parsed.
 Print Assumptions C10_lex_scannable_prefix_then_dot.
 Print Assumptions C10_accepted_source_has_no_error_token.
+Print Assumptions C10_prefix_open_error.
 Print Assumptions C10_elided_not_parsed_partial.
 Print Assumptions C10_text_fixpoint_narrow_keys_refuted.
 Print Assumptions C10_text_fixpoint_unsorted_set_refuted.
